@@ -56,6 +56,9 @@ class L2Domain:
     def _range(self, *a):
         if all(isinstance(x, int) for x in a):
             return range(*a)
+        for x in a:
+            if isinstance(x, Size) and any(str(self.ctx.atoms.origin.get(at_) or '').startswith('floor division') for at_ in x.atoms()):
+                self.ctx.event('floor-range', count=x, detail=f'a loop runs over range({x}) where {x} is the quotient of a floor division')
         if len(a) == 1:
             return SymRange(0, a[0])
         if len(a) == 2:
